@@ -18,6 +18,7 @@
 #    along with this program.  If not, see <http://www.gnu.org/licenses/>.
 #
 
+from decimal import Decimal
 from bitcoinlib.networks import *
 from bitcoinlib.config.config import NETWORK_DENOMINATORS
 
@@ -67,6 +68,7 @@ class Value:
         """
         if not isinstance(network, Network):
             network = Network(network)
+        satoshi = value
         if denominator is None:
             denominator = network.denominator
         else:
@@ -75,7 +77,11 @@ class Value:
                 if dens:
                     denominator = dens[0]
             value = value * (network.denominator / denominator)
-        return cls(value or 0, denominator, network)
+        val = cls(value or 0, denominator, network)
+        if isinstance(satoshi, int) and denominator != network.denominator:
+            # Exact decimal amount, the product of binary floats can be one satoshi off for large amounts
+            val.value = float(Decimal(satoshi) * Decimal(repr(network.denominator)))
+        return val
 
     def __init__(self, value, denominator=None, network=DEFAULT_NETWORK):
         """
@@ -176,6 +182,9 @@ class Value:
                         den_input = den
                         break
             self.value = float(value) * den_input
+            if den_input != 1 and math.isfinite(self.value):
+                # Multiply in decimal arithmetic, the binary product can be one satoshi off for large amounts
+                self.value = float(Decimal(value) * Decimal(repr(den_input)))
             self.denominator = den_input if den_arg is None else den_arg
         else:
             self.denominator = den_arg or 1.0
